@@ -61,6 +61,35 @@ type stats struct {
 	deadUsers                                                                                 map[string]map[string]bool // dead endpoint -> targets that list it
 	// message sizes: the largest single SubscribeResponses the targets sent (measured where they are sent)
 	sizes sizeStats
+	// values in the deprecated Update.value field: what the scripts contain ...
+	legacyTargets, typedTargets                                                      int
+	legacyRewrite, legacyAtomic, legacyAtomicFirst, legacyAtomicResent, legacyGroup  bool
+	legacyMulti, legacyFill, legacyAcrossBreak, legacyFinal, legacyPadded, legacyHot bool
+	legacyEnc, legacyShapes                                                          map[string]bool
+	// ... and what the schedule made of them (labels only): a coalesced delivery (duplicate count > 0) of a leaf whose
+	// final value is a legacy one; that delivery carrying the final value (the coalesced re-send is the last word on the
+	// leaf); the same at an observer whose handler had been blocked
+	coalescedLegacy, coalescedLegacyLast, coalescedLegacyLastBlocked bool
+}
+
+// noteLegacy records what a value in the deprecated field looks like.
+func (s *stats) noteLegacy(v gn.Val, pad int) {
+	if s.legacyEnc == nil {
+		s.legacyEnc, s.legacyShapes = map[string]bool{}, map[string]bool{}
+	}
+	switch v.Kind {
+	case "legacy-bytes":
+		s.legacyEnc["bytes"] = true
+	case "legacy-ietf":
+		s.legacyEnc["json-ietf"] = true
+		s.legacyShapes[jsonShape(v.S)] = true
+	default:
+		s.legacyEnc["json"] = true
+		s.legacyShapes[jsonShape(v.S)] = true
+	}
+	if pad > 0 {
+		s.legacyPadded = true
+	}
 }
 
 // bigResponse: some target sent a single SubscribeResponse above 4 MiB or with >= 1000 updates.
@@ -211,6 +240,29 @@ func (s *stats) labels() []string {
 	add(z.maxValue > 4*mib, "single-value>4MiB")
 	add(z.bigString, "large-string-value")
 	add(z.bigBytes, "large-bytes-value")
+	add(z.bigLegacy, "legacy-value>=512KiB")
+	add(s.legacyTargets > 0, "target-speaking-the-legacy-value-encoding")
+	add(s.legacyTargets > 0 && s.typedTargets > 0, "legacy-and-typed-targets-behind-one-collector")
+	for k := range s.legacyEnc {
+		l = append(l, "legacy-value-encoding-"+k)
+	}
+	for k := range s.legacyShapes {
+		l = append(l, "legacy-json-"+k)
+	}
+	add(s.legacyRewrite, "legacy-value-overwrites-legacy-value")
+	add(s.legacyAtomic, "legacy-value-in-atomic-container")
+	add(s.legacyAtomicFirst, "legacy-value-first-in-atomic-container")
+	add(s.legacyAtomicResent, "atomic-container-with-legacy-first-value-sent-again")
+	add(s.legacyGroup, "legacy-value-in-notification-with-several-updates")
+	add(s.legacyMulti, "legacy-value-in-notification-with-delete-and-update")
+	add(s.legacyFill, "bulk-state-in-legacy-encoding")
+	add(s.legacyPadded, "large-legacy-value")
+	add(s.legacyAcrossBreak, "legacy-values-reported-again-after-a-stream-break")
+	add(s.legacyFinal, "final-state-holds-legacy-values")
+	add(s.legacyHot, "legacy-leaf-written>=2-times-inside-an-observers-pause-and-never-after")
+	add(s.coalescedLegacy, "coalesced-delivery-of-legacy-leaf-observed")
+	add(s.coalescedLegacyLast, "coalesced-legacy-delivery-is-the-last-word-on-its-leaf")
+	add(s.coalescedLegacyLastBlocked, "coalesced-legacy-delivery-is-the-last-word-at-blocked-observer")
 	l = dedup(l)
 	sort.Strings(l)
 	return l
@@ -265,6 +317,17 @@ func scalarOf(v gn.Val) interface{} {
 			msg = "Deprecated TypedValue_JsonIetfVal"
 		}
 		return value.DeprecatedScalar{Message: msg, Value: i}
+	case "deprecated", "legacy-ietf":
+		// Update.value with encoding JSON / JSON_IETF: the client hands the application the decoded JSON value
+		// (json.Unmarshal into an `any`, no wrapper)
+		var i interface{}
+		if err := json.Unmarshal([]byte(v.S), &i); err != nil {
+			panic(fmt.Sprintf("e2e: generated JSON value %q does not parse: %v", cut(v.S), err))
+		}
+		return i
+	case "legacy-bytes":
+		// Update.value with encoding BYTES: the payload as it is
+		return []byte(v.S)
 	}
 	return nil
 }
@@ -290,6 +353,19 @@ func reference(sc *Scenario, st *stats) map[string]interface{} {
 			m.apply(o, st)
 		}
 		m.leaves(tg.Name, ref)
+		speaks := false
+		for _, u := range m.units {
+			st.legacyFinal = st.legacyFinal || legacyAny(u)
+		}
+		for _, k := range st.kindsOf(tg) {
+			speaks = speaks || isLegacy(k)
+		}
+		if speaks {
+			st.legacyTargets++
+		} else {
+			st.typedTargets++
+		}
+		st.noteHot(sc, tg, m)
 	}
 	for _, n := range servers {
 		if n > 1 {
@@ -304,6 +380,71 @@ func reference(sc *Scenario, st *stats) map[string]interface{} {
 	st.multiTarget = len(sc.Targets) > 1
 	st.leaves = len(ref)
 	return ref
+}
+
+// kindsOf: the value kinds a target's script carries.
+func (s *stats) kindsOf(tg Target) []string {
+	seen := map[string]bool{}
+	for _, o := range tg.Ops {
+		switch o.Kind {
+		case "update", "multi":
+			seen[o.Val.Kind] = true
+		case "atomic", "group":
+			for _, u := range o.Ups {
+				seen[u.Val.Kind] = true
+			}
+		case "fill":
+			seen[fillVal(o, 0).Kind] = true
+		}
+	}
+	var out []string
+	for k := range seen {
+		out = append(out, k)
+	}
+	sort.Strings(out)
+	return out
+}
+
+// noteHot looks for the slow-consumer shape in the scripts (schedule independent): an observer that watches tg and takes
+// its pauses from tg's script positions; a unit written at least twice by the ops tg starts while the handler is blocked
+// (ops From..Until-1) and by no later op; and the unit's final head value - the update a coalesced delivery carries its
+// duplicate count on - is a legacy one. Whether the collector did coalesce is the schedule's business (see the
+// coalesced-legacy-... labels).
+func (s *stats) noteHot(sc *Scenario, tg Target, final *model) {
+	for _, ob := range sc.Observers {
+		clock := sc.Targets[0].Name
+		if ob.Clock >= 0 {
+			clock = sc.Targets[ob.Clock%len(sc.Targets)].Name
+		}
+		if clock != tg.Name || (ob.Scope >= 0 && sc.Targets[ob.Scope%len(sc.Targets)].Name != tg.Name) {
+			continue
+		}
+		for _, p := range ob.Pauses {
+			inside, after := map[string]int{}, map[string]bool{}
+			for i := p.From; i < len(tg.Ops); i++ {
+				if i < 0 {
+					continue
+				}
+				if tg.Ops[i].Kind == "break" {
+					// the device reports its state again afterwards: the coalesced delivery is not the last word
+					inside = nil
+					break
+				}
+				for _, k := range written(tg.Ops[i]) {
+					if i < p.Until {
+						inside[k]++
+					} else {
+						after[k] = true
+					}
+				}
+			}
+			for k, n := range inside {
+				if u := final.units[k]; n >= 2 && !after[k] && u != nil && final.legacyHead(u) {
+					s.legacyHot = true
+				}
+			}
+		}
+	}
 }
 
 // delKeyOfMulti is the index of the delete path of a "multi" op: the first Cut elements of its update path.
